@@ -1,5 +1,6 @@
 #!/bin/bash
 # usage: tools/intake_seeds.sh <round tag> <seedout dir> ...   -- confirms every <dir>/<i>/ in the scratch worktree /tmp/wtconfirm
+# (create the scratch worktree first: git -C /repo worktree add --detach /tmp/wtconfirm HEAD ; remove it afterwards: git -C /repo worktree remove --force /tmp/wtconfirm)
 # (suite passes with the patch, demo fails with it, demo passes without it) and prints one line per candidate
 tag=$1; shift
 for d in "$@"; do
